@@ -1,6 +1,7 @@
 package consul
 
 import (
+	"bytes"
 	"fmt"
 	"log"
 	"net"
@@ -9,6 +10,7 @@ import (
 	"strconv"
 	"strings"
 
+	"github.com/fabiolb/fabio/route"
 	"github.com/hashicorp/consul/api"
 )
 
@@ -100,10 +102,23 @@ func (r routecmd) build() []string {
 				cfg += " opts " + strconv.Quote(strings.Join(ropts, " "))
 			}
 
+			// a registration that fabio's own route parser does not accept would make
+			// the whole routing table update fail: drop it on its own
+			if err := validateCommand(cfg); err != nil {
+				log.Printf("[WARN] consul: Skipping route for service %q. Generated command %q is invalid: %s", name, cfg, err)
+				continue
+			}
+
 			config = append(config, cfg)
 		}
 	}
 	return config
+}
+
+// validateCommand checks whether the route parser accepts cmd.
+func validateCommand(cmd string) error {
+	_, err := route.Parse(bytes.NewBufferString(cmd))
+	return err
 }
 
 // parseURLPrefixTag expects an input in the form of 'tag-host/path[ opts]'
